@@ -1,70 +1,108 @@
 import BfeVerif.C19.Proofs
 /-!
   C19 — IP dictionaries report exact membership.  Property theorems only (lemmas are in `Proofs.lean`).
+  The model mirrors the code after fixes/C19-nil-marker.md (deleted slots of `mergeItems` are `(nil, nil)`).
 
-  `search singles (sortTable sort1 sort2 ranges) ip` is the model of
-  `InsertPair*; InsertSingle*; Sort(); IPTable.Search(ip)`; `ranges` are the pairs accepted by `InsertPair`
-  (16-byte values, start ≤ end), `sort1`/`sort2` the two `sort.Sort` calls.
+  `search singles (sortTable sort1 sort2 table) ip` is the model of
+  `InsertPair*; InsertSingle*; Sort(); IPTable.Search(ip)`; `sort1`/`sort2` are the two `sort.Sort` calls.
+  Table values are IP *codes* (`0` = nil, `encIP v = v + 1` = the 16-byte IP with value `v`), see `Model.lean`.
 -/
 namespace BfeVerif.C19
 
-/-- every loaded pair was accepted by `checkIPPair` -/
+/-- every loaded pair was accepted by `checkIPPair` (raw 16-byte values, start ≤ end) -/
 def Valid (ranges : List Item) : Prop := ∀ r ∈ ranges, r.1 ≤ r.2
 
-/-- no loaded pair can be confused with the deletion marker of `mergeItems`:
-    it does not start at `::` and does not end at `0.0.0.0` (= `::ffff:0.0.0.0`). -/
-def NoMarkerClash (ranges : List Item) : Prop := ∀ r ∈ ranges, r.1 ≠ 0 ∧ r.2 ≠ v4zero
+/-- what `InsertPair` stores for an accepted pair -/
+def encRange (r : Item) : Item := (encIP r.1, encIP r.2)
 
 instance (l : List Item) : Decidable (Valid l) := by unfold Valid; infer_instance
-instance (l : List Item) : Decidable (NoMarkerClash l) := by unfold NoMarkerClash; infer_instance
 
-/-- **C19 at full strength** (false for the code as it is — see the two witnesses below):
-    for every admissible behaviour of the two `sort.Sort` calls and every accepted multiset of pairs,
-    `Search` answers exactly "is a loaded single address or lies in a loaded range". -/
-def ExactMembership : Prop :=
-  ∀ sort1 sort2, IsSort sort1 → IsSort sort2 → ∀ (ranges : List Item) (singles : List Nat) (ip : Nat),
-    Valid ranges → (search singles (sortTable sort1 sort2 ranges) ip = true ↔ ip ∈ singles ∨ InUnion ranges ip)
-
-/-- The provable part: exact membership whenever no loaded range starts at `::` or ends at `0.0.0.0`;
-    any overlap / nesting / chaining / duplicate pattern, any admissible tie-breaking of both sorts,
-    any number of ranges, any probe. -/
-theorem C19_exact_partial (sort1 sort2 : List Item → List Item) (h1 : IsSort sort1) (h2 : IsSort sort2)
-    (ranges : List Item) (singles : List Nat) (ip : Nat) (hv : Valid ranges) (hn : NoMarkerClash ranges) :
-    search singles (sortTable sort1 sort2 ranges) ip = true ↔ ip ∈ singles ∨ InUnion ranges ip := by
-  have hg : ∀ a ∈ ranges, Good a := fun a ha => ⟨Nat.pos_of_ne_zero (hn a ha).1, hv a ha, (hn a ha).2⟩
-  obtain ⟨t1, t2, t3, t4⟩ := table_spec sort1 sort2 h1 h2 ranges hg
+/-- **C19 (full strength)**: for every admissible behaviour of the two `sort.Sort` calls, every multiset of accepted
+    ranges (any overlap / nesting / chaining / duplicates, IPv4-mapped or IPv6, starting at `::` or equal to
+    `0.0.0.0–0.0.0.0` included), every list of single addresses and every probe address, `Search` answers true
+    exactly when the probe is a loaded single address or lies in a loaded range, bounds included. -/
+theorem C19_exact (sort1 sort2 : List Item → List Item) (h1 : IsSort sort1) (h2 : IsSort sort2)
+    (ranges : List Item) (singles : List Nat) (ip : Nat) (hv : Valid ranges) :
+    search (singles.map encIP) (sortTable sort1 sort2 (ranges.map encRange)) (encIP ip) = true ↔
+      ip ∈ singles ∨ InUnion ranges ip := by
+  have hg : ∀ a ∈ ranges.map encRange, Good a := by
+    intro a ha
+    obtain ⟨r, hr, rfl⟩ := List.mem_map.mp ha
+    have := hv r hr
+    unfold Good encRange encIP; simp only; omega
+  obtain ⟨t1, t2, t3, t4⟩ := table_spec sort1 sort2 h1 h2 _ hg
+  have hcov : Cov (ranges.map encRange) (encIP ip) ↔ InUnion ranges ip := by
+    unfold Cov InUnion
+    constructor
+    · rintro ⟨a, ha, h⟩
+      obtain ⟨r, hr, rfl⟩ := List.mem_map.mp ha
+      unfold encRange encIP at h; simp only at h
+      exact ⟨r, hr, by omega, by omega⟩
+    · rintro ⟨r, hr, h⟩
+      exact ⟨encRange r, List.mem_map.mpr ⟨r, hr, rfl⟩, by unfold encRange encIP; simp only; omega⟩
+  have hsg : (singles.map encIP).contains (encIP ip) = true ↔ ip ∈ singles := by
+    rw [List.contains_iff_mem, List.mem_map]
+    constructor
+    · rintro ⟨v, hv', e⟩
+      unfold encIP at e
+      have : v = ip := by omega
+      subst this; exact hv'
+    · intro h; exact ⟨ip, h, rfl⟩
   unfold search
-  by_cases hs : singles.contains ip = true
+  by_cases hs : (singles.map encIP).contains (encIP ip) = true
   · simp only [hs, if_true, true_iff]
-    exact Or.inl (List.contains_iff_mem.mp hs)
+    exact Or.inl (hsg.mp hs)
   · simp only [hs, Bool.false_eq_true, if_false]
-    rw [searchTable_iff _ t1 t2 t3, t4]
+    rw [searchTable_iff _ t1 t2 t3, t4, hcov]
     constructor
     · exact fun h => Or.inr h
     · rintro (h | h)
-      · exact absurd (List.contains_iff_mem.mpr h) hs
+      · exact absurd (hsg.mpr h) hs
       · exact h
 
-/-- The same in the form the driver's oracle uses: the model's answer equals the executable specification. -/
-theorem C19_search_eq_spec_partial (sort1 sort2 : List Item → List Item) (h1 : IsSort sort1) (h2 : IsSort sort2)
-    (ranges : List Item) (singles : List Nat) (ip : Nat) (hv : Valid ranges) (hn : NoMarkerClash ranges) :
-    search singles (sortTable sort1 sort2 ranges) ip = specSearch singles ranges ip := by
-  have h := C19_exact_partial sort1 sort2 h1 h2 ranges singles ip hv hn
-  have hs : specSearch singles ranges ip = true ↔ ip ∈ singles ∨ InUnion ranges ip := by
-    unfold specSearch inUnionB InUnion
+/-- The same at the level of the stored codes, in the form the driver's oracle uses: for any table content made of
+    non-nil IPs with start ≤ end, the model's answer equals the executable specification. -/
+theorem C19_search_eq_spec (sort1 sort2 : List Item → List Item) (h1 : IsSort sort1) (h2 : IsSort sort2)
+    (stored : List Item) (singles : List Nat) (ip : Nat) (hv : ∀ r ∈ stored, 0 < r.1 ∧ r.1 ≤ r.2) :
+    search singles (sortTable sort1 sort2 stored) ip = specSearch singles stored ip := by
+  obtain ⟨t1, t2, t3, t4⟩ := table_spec sort1 sort2 h1 h2 stored hv
+  have hs : specSearch singles stored ip = true ↔ ip ∈ singles ∨ Cov stored ip := by
+    unfold specSearch inUnionB Cov
     simp only [Bool.or_eq_true, List.contains_iff_mem, List.any_eq_true, Bool.and_eq_true, decide_eq_true_eq]
-  cases hb : search singles (sortTable sort1 sort2 ranges) ip <;> cases hc : specSearch singles ranges ip <;> simp_all
+  have hm : search singles (sortTable sort1 sort2 stored) ip = true ↔ ip ∈ singles ∨ Cov stored ip := by
+    unfold search
+    by_cases hc : singles.contains ip = true
+    · simp only [hc, if_true, true_iff]; exact Or.inl (List.contains_iff_mem.mp hc)
+    · simp only [hc, Bool.false_eq_true, if_false]
+      rw [searchTable_iff _ t1 t2 t3, t4]
+      constructor
+      · exact fun h => Or.inr h
+      · rintro (h | h)
+        · exact absurd (List.contains_iff_mem.mpr h) hc
+        · exact h
+  cases hb : search singles (sortTable sort1 sort2 stored) ip <;> cases hc : specSearch singles stored ip <;> simp_all
 
-/-- What `Sort()` leaves in the table (same hypotheses): only real entries, descending starts, pairwise disjoint,
-    covering exactly the union of the loaded ranges — in particular nothing is lost by the reslice. -/
-theorem C19_table_invariants_partial (sort1 sort2 : List Item → List Item) (h1 : IsSort sort1) (h2 : IsSort sort2)
-    (ranges : List Item) (hv : Valid ranges) (hn : NoMarkerClash ranges) :
-    (∀ a ∈ sortTable sort1 sort2 ranges, 0 < a.1 ∧ a.1 ≤ a.2) ∧
-    (sortTable sort1 sort2 ranges).Pairwise (fun a b => b.1 ≤ a.1 ∧ (b.2 < a.1 ∨ a.2 < b.1)) ∧
-    ∀ x, (∃ a ∈ sortTable sort1 sort2 ranges, a.1 ≤ x ∧ x ≤ a.2) ↔ InUnion ranges x := by
-  have hg : ∀ a ∈ ranges, Good a := fun a ha => ⟨Nat.pos_of_ne_zero (hn a ha).1, hv a ha, (hn a ha).2⟩
-  obtain ⟨t1, t2, t3, t4⟩ := table_spec sort1 sort2 h1 h2 ranges hg
-  refine ⟨fun a ha => ⟨(t1 a ha).1, (t1 a ha).2.1⟩, ?_, t4⟩
+/-- `InsertPair` stores exactly such entries: an accepted pair consists of two non-nil IPs with start ≤ end. -/
+theorem C19_insertPair_stored (s e : Option Nat) (r : Item) (h : insertPair s e = some r) : 0 < r.1 ∧ r.1 ≤ r.2 := by
+  unfold insertPair at h
+  split at h
+  · split at h
+    · simp at h
+    · split at h
+      · simp at h
+      · simp only [Option.some.injEq] at h
+        subst h; unfold encIP; simp only; omega
+  · simp at h
+
+/-- What `Sort()` leaves in the table: only real entries (no deleted slot survives the reslice, no real entry is cut),
+    descending starts, pairwise disjoint, covering exactly the union of the loaded ranges. -/
+theorem C19_table_invariants (sort1 sort2 : List Item → List Item) (h1 : IsSort sort1) (h2 : IsSort sort2)
+    (stored : List Item) (hv : ∀ r ∈ stored, 0 < r.1 ∧ r.1 ≤ r.2) :
+    (∀ a ∈ sortTable sort1 sort2 stored, 0 < a.1 ∧ a.1 ≤ a.2) ∧
+    (sortTable sort1 sort2 stored).Pairwise (fun a b => b.1 ≤ a.1 ∧ (b.2 < a.1 ∨ a.2 < b.1)) ∧
+    ∀ x, (∃ a ∈ sortTable sort1 sort2 stored, a.1 ≤ x ∧ x ≤ a.2) ↔ InUnion stored x := by
+  obtain ⟨t1, t2, t3, t4⟩ := table_spec sort1 sort2 h1 h2 stored hv
+  refine ⟨t1, ?_, t4⟩
   have := t2.and t3
   refine List.Pairwise.imp_of_mem ?_ this
   intro a b ha hb h
@@ -88,42 +126,35 @@ theorem C19_goSearch_first (f : Nat → Bool) (n : Nat) (hmono : ∀ i j, i ≤ 
   goSearch_spec f n hmono
 
 /-- Go's insertion sort with the non-strict `Less` (what `sort.Sort` runs for n ≤ 12) is an admissible sort:
-    the hypotheses `IsSort` of the theorems above are satisfiable, and the witnesses below use the order Go really produces. -/
+    the hypotheses `IsSort` of the theorems above are satisfiable. -/
 theorem C19_goSort_admissible : IsSort goSort := goSort_isSort
 
-/-- **Witness 1** (`zero-start`): ranges `{::–::5, ::–::a}`; the merged entry `::–::a` ties with the deletion marker in the
-    second sort, Go's order puts the marker first, the reslice keeps the marker and drops the entry: `::5` is not found. -/
-theorem C19_witness_zero_start : ¬ ExactMembership := by
-  intro h
-  have := (h goSort goSort goSort_isSort goSort_isSort [(0, 5), (0, 10)] [] 5 (by decide)).mpr
-    (Or.inr ⟨(0, 5), by decide, by decide, by decide⟩)
-  revert this; decide
+/-! The former witnesses (inputs on which the unfixed `Sort()` lost entries), with Go's own tie order. -/
 
-/-- **Witness 2** (`v4zero-end`): ranges `{0.0.0.0–0.0.0.0, ::1–2001::}`; the first is taken for a marker (its end
-    `Equal(net.IPv4zero)`), is never merged into the second, stays in the table and shadows it: `0.0.0.1` is not found. -/
-theorem C19_witness_v4zero_end :
-    Valid [(v4zero, v4zero), (1, 0x20010000000000000000000000000000)] ∧
-    InUnion [(v4zero, v4zero), (1, 0x20010000000000000000000000000000)] (v4zero + 1) ∧
-    search [] (sortTable goSort goSort [(v4zero, v4zero), (1, 0x20010000000000000000000000000000)]) (v4zero + 1) = false := by
-  refine ⟨by decide, ⟨(1, 0x20010000000000000000000000000000), by decide, by decide, by decide⟩, by decide⟩
+/-- former `zero-start` witness `{::–::5, ::–::a}`: the table is now `[::–::a]` and `::5` is found
+    (before the fix the table was just the `::/::` marker). -/
+theorem C19_former_witness_zero_start :
+    sortTable goSort goSort ([(0, 5), (0, 10)].map encRange) = [encRange (0, 10)] ∧
+    search [] (sortTable goSort goSort ([(0, 5), (0, 10)].map encRange)) (encIP 5) = true := by decide
 
-/-- Witness 2 with IPv4 addresses only: `{0.0.0.0–0.0.0.1, 0.0.0.0–0.0.0.0, 0.0.0.1–0.0.0.1}` (in this insertion order)
-    leaves `[0.0.0.0–0.0.0.0, 0.0.0.0–0.0.0.1]` in the table and `0.0.0.1` is not found. -/
-theorem C19_witness_v4zero_end_ipv4 :
-    sortTable goSort goSort [(v4zero, v4zero + 1), (v4zero, v4zero), (v4zero + 1, v4zero + 1)] =
-      [(v4zero, v4zero), (v4zero, v4zero + 1)] ∧
-    search [] (sortTable goSort goSort [(v4zero, v4zero + 1), (v4zero, v4zero), (v4zero + 1, v4zero + 1)]) (v4zero + 1) = false ∧
-    specSearch [] [(v4zero, v4zero + 1), (v4zero, v4zero), (v4zero + 1, v4zero + 1)] (v4zero + 1) = true := by
-  decide
+/-- former `v4zero-end` witness `{0.0.0.0–0.0.0.0, ::1–2001::}`: merged into one entry, `0.0.0.1` is found. -/
+theorem C19_former_witness_v4zero_end :
+    sortTable goSort goSort ([(v4zero, v4zero), (1, 0x20010000000000000000000000000000)].map encRange) =
+      [encRange (1, 0x20010000000000000000000000000000)] ∧
+    search [] (sortTable goSort goSort ([(v4zero, v4zero), (1, 0x20010000000000000000000000000000)].map encRange))
+      (encIP (v4zero + 1)) = true := by decide
 
-/-- The table of witness 1 after `Sort()` is just the marker. -/
-theorem C19_witness_zero_start_table : sortTable goSort goSort [(0, 5), (0, 10)] = [marker] := by decide
+/-- former IPv4-only witness `{0.0.0.0–0.0.0.1, 0.0.0.0–0.0.0.0, 0.0.0.1–0.0.0.1}` -/
+theorem C19_former_witness_v4zero_end_ipv4 :
+    sortTable goSort goSort ([(v4zero, v4zero + 1), (v4zero, v4zero), (v4zero + 1, v4zero + 1)].map encRange) =
+      [encRange (v4zero, v4zero + 1)] ∧
+    search [] (sortTable goSort goSort ([(v4zero, v4zero + 1), (v4zero, v4zero), (v4zero + 1, v4zero + 1)].map encRange))
+      (encIP (v4zero + 1)) = true := by decide
 
-/-! Non-vacuity: nested, chained, duplicate and touching ranges satisfy the hypotheses, and the theorem's answer on
-    them is the non-trivial one (three input ranges collapse into one entry). -/
-example : Valid [(10, 20), (15, 30), (12, 13), (30, 31), (40, 41), (10, 20)] ∧
-    NoMarkerClash [(10, 20), (15, 30), (12, 13), (30, 31), (40, 41), (10, 20)] := by decide
-example : sortTable goSort goSort [(10, 20), (15, 30), (12, 13), (30, 31), (40, 41), (10, 20)] = [(40, 41), (10, 31)] := by
-  decide
+/-! Non-vacuity: nested, chained, duplicate, touching ranges and a range `::–::` satisfy the hypothesis, and the
+    answer on them is the non-trivial one (several input ranges collapse into one entry, `::–::` is kept). -/
+example : Valid [(10, 20), (15, 30), (12, 13), (30, 31), (40, 41), (10, 20), (0, 0)] := by decide
+example : sortTable goSort goSort ([(10, 20), (15, 30), (12, 13), (30, 31), (40, 41), (10, 20), (0, 0)].map encRange) =
+    [encRange (40, 41), encRange (10, 31), encRange (0, 0)] := by decide
 
 end BfeVerif.C19
